@@ -1,3 +1,87 @@
-Require Import Base.Wire Base.PyStr C04.Model.
-Theorem C04_stub : True. Proof. exact Logic.I. Qed.
-Print Assumptions C04_stub.
+(* C04/Props.v — the property theorems, nothing else.
+   Model: C04/Model.v.  Proofs: Glob.v, Sound.v, Assoc.v, Coherent.v. *)
+From Coq Require Import List NArith ZArith Bool.
+Import ListNotations.
+Require Import Base.Wire Base.PyStr C04.Model C04.Glob C04.Sound C04.Coherent.
+Require C03.Model.
+
+(* The regex the code builds from a hostmask pattern decides exactly the
+   declarative IRC glob semantics, for every pattern and hostmask. *)
+Theorem C04_glob_correct : forall p h, gmatch p h = true <-> gsem p h.
+Proof. exact gmatch_correct. Qed.
+Print Assumptions C04_glob_correct.
+
+(* Matching is invariant under rfc1459 case folding of pattern and hostmask
+   (ASCII text; re.I is modelled for ASCII letters). *)
+Theorem C04_glob_fold :
+  forall pat h, is_ascii pat = true -> is_ascii h = true ->
+  hmatch (C03.Model.fold pat) (C03.Model.fold h) = hmatch pat h.
+Proof. exact hmatch_fold. Qed.
+Print Assumptions C04_glob_fold.
+
+(* A lookup that misses the cache answers id only if id is the one and only
+   account recognising the hostmask (own mask, or unexpired login from exactly
+   that hostmask), for every database, clock and timeout. *)
+Theorem C04_sound :
+  forall t now s h s' id,
+    dict_get h (s_hcache s) = None -> getUserId t now s h = (s', Ok id) ->
+    recognised_by t now s h = [id].
+Proof. exact lookup_sound_miss. Qed.
+Print Assumptions C04_sound.
+
+(* A hostmask that two accounts recognise never resolves (cache miss): it raises. *)
+Theorem C04_never_two :
+  forall t now s h,
+    dict_get h (s_hcache s) = None -> (1 < length (recognised_by t now s h))%nat ->
+    exists e, snd (getUserId t now s h) = Raise e.
+Proof. exact lookup_ambiguous_raises. Qed.
+Print Assumptions C04_never_two.
+
+(* Full statement of cache coherence:
+     forall history, the answer of a lookup = the cache-free recomputation.
+   The pinned code violates it (findings F5, F6, F22).  Proved: it holds for
+   every history from the empty database on the domain "no login timeout and
+   every lookup unambiguous when it happens" ... *)
+Theorem C04_cache_coherent_on_domain :
+  forall ops now h id,
+    hist_ok init ops ->
+    (length (recognised_by 0 now (run_ops init ops) h) <= 1)%nat ->
+    snd (getUserId 0 now (run_ops init ops) h) = Ok id ->
+    recognised_by 0 now (run_ops init ops) h = [id].
+Proof. exact lookup_coherent_on_domain. Qed.
+Print Assumptions C04_cache_coherent_on_domain.
+
+(* ... the invariant behind it is preserved by every operation ... *)
+Theorem C04_invariant_step :
+  forall now s o, Inv s -> ids_bounded s -> op_ok now s o ->
+  Inv (fst (step 0 now s o)) /\ ids_bounded (fst (step 0 now s o)).
+Proof. exact step_preserves. Qed.
+Print Assumptions C04_invariant_step.
+
+(* ... and it fails outside the domain: (a) a login that expired is still
+   answered from the cache, (b) overlapping glob masks of two accounts are
+   accepted, (c) a login from a hostmask another account owns leaves the stale
+   cached answer. *)
+Theorem C04_cache_coherent_refuted :
+  (exists s h id, snd (getUserId 10 1030 s h) = Ok id /\ recognised_by 10 1030 s h = []) /\
+  (exists s h, recognised_by 0 1000 s h = [1%N; 2%N]) /\
+  (exists s h, snd (getUserId 0 1000 s h) = Ok 1%N /\ recognised_by 0 1000 s h = [1%N; 2%N]).
+Proof.
+  split; [|split].
+  - destruct expired_login_refuted as [A B]. eexists. eexists. eexists. split; [exact A|exact B].
+  - pose proof overlap_refuted as H. cbv zeta in H.
+    destruct (setUser 0 1000 _ 2 _) as [s2 r]. destruct H as [_ H]. eexists. eexists. exact H.
+  - destruct login_vs_mask_refuted as [A B]. eexists. eexists. split; [exact A|exact B].
+Qed.
+Print Assumptions C04_cache_coherent_refuted.
+
+(* A secure account accepts a login only from a hostmask one of its masks matches. *)
+Theorem C04_secure :
+  forall now u h u', u_secure u = true -> addAuth now u h = Ok u' -> mask_match u h = true.
+Proof. exact secure_login. Qed.
+Print Assumptions C04_secure.
+
+Theorem C04_secure_refused :
+  forall now u h, u_secure u = true -> mask_match u h = false -> addAuth now u h = Raise ValueError.
+Proof. exact secure_login_refused. Qed.
+Print Assumptions C04_secure_refused.
